@@ -27,15 +27,24 @@ def adapters_part(ck, tier, rng):
             n = sum(1 for (c, _, _) in slevel.TRACE if c == self.dev)
             notif.setdefault((self.dev, self.k), []).append(n)
 
+    class EqualProbes(ProbeAdapter):
+        """adapters that compare equal when they serve the same device (a dataclass adapter does): still two adapters"""
+        def __eq__(self, other):
+            return isinstance(other, ProbeAdapter) and other.dev == self.dev
+
+        def __hash__(self):
+            return hash(self.dev)
+
     class NoIo:
         async def setup(self, adapter, raise_interrupt):
             return
 
-    for _ in range({"quick": 25, "thorough": 300}[tier]):
+    for round_ in range({"quick": 25, "thorough": 300}[tier]):
+        Probe = EqualProbes if round_ % 2 else ProbeAdapter
         cfg = slevel.gen_config(rng, depth=rng.choice([0, 1, 2]))
         devs = slevel.gen_devs(rng, cfg)
         notif.clear()
-        ad = {d: (lambda d=d: [AdapterContainer(ProbeAdapter(d, k), NoIo()) for k in range(2)]) for d in slevel.devices_of(cfg)}
+        ad = {d: (lambda d=d: [AdapterContainer(Probe(d, k), NoIo()) for k in range(2)]) for d in slevel.devices_of(cfg)}
         r = slevel.run_internal(cfg, devs, (1, 1), 0, sprops.gen_stim(rng, cfg, devs), 1_500_000_003, adapters=ad)
         ck.count("adapters:" + str(sorted(r["per"])) + str(len(r["trace"])), len(r["trace"]) > len(devs))
         for d in slevel.devices_of(cfg):
